@@ -1,8 +1,11 @@
 package suites
 
 import (
+	"bytes"
 	"fmt"
-	"sort"
+	"os"
+	"os/exec"
+	"runtime"
 	"strconv"
 	"strings"
 	"sync/atomic"
@@ -219,6 +222,11 @@ func StructuralInvariant(c *girc.Client) string {
 		}
 		return ""
 	}
+	for _, u := range users {
+		if m := okList(u.ChannelList); m != "" {
+			return "ChannelList of " + u.Nick + ": " + m
+		}
+	}
 	for _, ch := range chans {
 		if m := okList(ch.UserList); m != "" {
 			return "UserList of " + ch.Name + ": " + m
@@ -228,7 +236,7 @@ func StructuralInvariant(c *girc.Client) string {
 			if u == nil {
 				return "channel " + ch.Name + " lists unknown user " + strconv.Quote(n)
 			}
-			if !sort.StringsAreSorted(u.ChannelList) || !containsStr(u.ChannelList, girc.ToRFC1459(ch.Name)) {
+			if !containsStr(u.ChannelList, girc.ToRFC1459(ch.Name)) {
 				return "nick " + n + " is listed in " + ch.Name + " but the channel is not listed for the user"
 			}
 		}
@@ -247,6 +255,20 @@ func StructuralInvariant(c *girc.Client) string {
 			}
 			if !containsStr(ch.UserList, girc.ToRFC1459(u.Nick)) {
 				return "channel " + cn + " is listed for " + u.Nick + " but the nick is not listed in the channel"
+			}
+		}
+	}
+	return ""
+}
+
+// PermsCovered: every channel listed for a user has an entry in its permission map
+// (C05_perms_cover_partial). Returns "" or the first gap.
+func PermsCovered(c *girc.Client) string {
+	for _, u := range c.Users() {
+		keys, _, _ := u.Perms.VerifPermsMap()
+		for _, cn := range u.ChannelList {
+			if !containsStr(keys, cn) {
+				return "user " + u.Nick + " lists " + strconv.Quote(cn) + " but has no permission entry for it"
 			}
 		}
 	}
@@ -288,11 +310,29 @@ func RunHistory(nick, user string, evs []Ev) (obs, oracle string, ss *StateSessi
 	ss = StartState(nick, user)
 	mark := ss.Mark()
 	for i, e := range evs {
-		ss.Apply(e)
+		// RunHandlers returns when every foreground handler has returned; with a leaked state
+		// lock the next handler never does, so the call is watched from outside.
+		returned := make(chan struct{})
+		go func(e Ev) { ss.Apply(e); close(returned) }(e)
+		started := time.Now()
+	wait:
+		for {
+			select {
+			case <-returned:
+				break wait
+			case <-time.After(100 * time.Millisecond):
+				if !StateLockFree(ss.C, 150*time.Millisecond) {
+					return "WEDGED", fmt.Sprintf("wedge: the handlers of event %d (%s) block on a state lock that is never released", i, e.Cmd), ss
+				}
+				if time.Since(started) > 20*time.Second {
+					return "NOPONG", fmt.Sprintf("liveness: the handlers of event %d (%s) did not return", i, e.Cmd), ss
+				}
+			}
+		}
 		if ss.PanicCount() > 0 {
 			return "PANIC", fmt.Sprintf("panic: handler panicked on event %d (%s %q)", i, e.Cmd, e.Params), ss
 		}
-		if !ss.C.VerifTryStateLock() {
+		if !StateLockFree(ss.C, 150*time.Millisecond) {
 			return "WEDGED", fmt.Sprintf("wedge: state lock still held after event %d (%s)", i, e.Cmd), ss
 		}
 	}
@@ -304,6 +344,360 @@ func RunHistory(nick, user string, evs []Ev) (obs, oracle string, ss *StateSessi
 	obs = DumpState(ss.C) + ";w=" + Written(ss.Since(mark), sentinel)
 	if m := StructuralInvariant(ss.C); m != "" {
 		oracle = "structure: " + m
+	} else if m := PermsCovered(ss.C); m != "" {
+		oracle = "perms: " + m
 	}
 	return obs, oracle, ss
+}
+
+// StateLockFree reports whether the state lock can be taken. A background handler (CTCP
+// replier, welcome handler) may hold the lock for an instant, so one failed TryLock is not
+// a wedge: the verdict "held" needs at least 300 failed attempts, each followed by a yield
+// to the holder, spread over at least d. A lock leaked by a handler stays held for ever.
+func StateLockFree(c *girc.Client, d time.Duration) bool {
+	start := time.Now()
+	for n := 0; ; n++ {
+		if c.VerifTryStateLock() {
+			return true
+		}
+		if n >= 300 && time.Since(start) >= d {
+			return false
+		}
+		runtime.Gosched()
+		time.Sleep(200 * time.Microsecond)
+	}
+}
+
+// Line renders the event as the raw line a server would send. ok=false when no line
+// parses back to exactly this event (empty or spaced middle parameter, empty source name, ...).
+func (e Ev) Line() (line string, ok bool) {
+	var sb strings.Builder
+	if e.HasAcct {
+		sb.WriteString("@account=" + e.Acct + " ")
+	}
+	if e.HasSrc {
+		sb.WriteString(":" + e.Name)
+		if e.Ident != "" {
+			sb.WriteString("!" + e.Ident)
+		}
+		if e.Host != "" {
+			sb.WriteString("@" + e.Host)
+		}
+		sb.WriteByte(' ')
+	}
+	sb.WriteString(e.Cmd)
+	for i, p := range e.Params {
+		if i == len(e.Params)-1 && (p == "" || strings.Contains(p, " ") || p[0] == ':') {
+			sb.WriteString(" :" + p)
+		} else {
+			sb.WriteString(" " + p)
+		}
+	}
+	line = sb.String()
+	if strings.ContainsAny(line, "\r\n\x00") {
+		return line, false
+	}
+	back, pok := EvFromLine(line)
+	if !pok || !evEqual(back, e) {
+		return line, false
+	}
+	return line, true
+}
+
+func evEqual(a, b Ev) bool {
+	if a.HasSrc != b.HasSrc || a.HasAcct != b.HasAcct || a.Cmd != b.Cmd || len(a.Params) != len(b.Params) {
+		return false
+	}
+	if a.HasSrc && (a.Name != b.Name || a.Ident != b.Ident || a.Host != b.Host) {
+		return false
+	}
+	if a.HasAcct && a.Acct != b.Acct {
+		return false
+	}
+	for i := range a.Params {
+		if a.Params[i] != b.Params[i] {
+			return false
+		}
+	}
+	return true
+}
+
+// SentinelPrefix starts every PING token the harness itself sends.
+const SentinelPrefix = "verif-sentinel-"
+
+// WrittenNoSentinels is Written without any PONG that answers a harness PING.
+func WrittenNoSentinels(lines []string) string {
+	var out []string
+	for _, l := range lines {
+		p := girc.ParseEvent(l)
+		if p == nil {
+			continue
+		}
+		switch p.Command {
+		case "WHO", "MODE", "PONG":
+			if p.Command == "PONG" && len(p.Params) == 1 && strings.HasPrefix(p.Params[0], SentinelPrefix) {
+				continue
+			}
+			out = append(out, Hex(p.Command)+":"+HexList(strings.Fields(strings.Join(p.Params, " "))))
+		}
+	}
+	return strings.Join(out, "|")
+}
+
+// ConnOptions selects the client configuration of a connected session.
+type ConnOptions struct {
+	SASL      bool // Config.SASL = SASLPlain
+	NoRecover bool // a handler panic is not absorbed (as with RecoverFunc == nil): the process dies
+}
+
+// mayDisconnect: events after which the client may decide to disconnect with an error.
+func mayDisconnect(e Ev, opt ConnOptions) bool {
+	switch e.Cmd {
+	case "ERROR":
+		return true
+	case "AUTHENTICATE", "902", "904", "905", "906", "908":
+		return opt.SASL
+	}
+	return false
+}
+
+// RunConnected pushes the history through the socket of a MockConnect'ed client, one line
+// at a time, then requires the liveness half of C05: a sentinel PING is answered, or
+// Connect has returned an error. Observation: the state dump, or "disconnected".
+func RunConnected(nick, user string, evs []Ev, opt ConnOptions) (obs, oracle string) {
+	cfg := drive.BaseConfig()
+	cfg.Nick, cfg.User = nick, user
+	if opt.SASL {
+		cfg.SASL = &girc.SASLPlain{User: "acct", Pass: "secret"}
+	}
+	if opt.NoRecover {
+		cfg.RecoverFunc = func(c *girc.Client, e *girc.HandlerError) { panic(e) }
+	}
+	ss := drive.Start(cfg)
+	var general int64 // UPDATE_GENERAL notifications seen
+	ss.C.Handlers.Add(girc.UPDATE_GENERAL, func(c *girc.Client, e girc.Event) { atomic.AddInt64(&general, 1) })
+	healthy := true // after a wedge / missing PONG verdict the client is abandoned, not stopped
+	defer func() {
+		if healthy {
+			ss.Stop()
+		}
+	}()
+	mark := ss.Mark()
+	seq := 0
+	wedged := false
+	var gone bool  // the pipe is closed or Connect has returned
+	var ended bool // Connect's result has been received
+	var derr error
+	pollDone := func() {
+		if ended {
+			return
+		}
+		select {
+		case derr = <-ss.Done:
+			ended, gone = true, true
+			ss.Done <- derr // Stop() reads it again
+		default:
+		}
+	}
+	stalled := false
+	// send writes one line; the pipe is synchronous, so a client that stopped reading (its
+	// receive queue is full because the handlers block) would block the harness too.
+	send := func(line string) bool {
+		errc := make(chan error, 1)
+		go func() { errc <- ss.Send(line) }()
+		start := time.Now()
+		for {
+			select {
+			case err := <-errc:
+				if err != nil {
+					gone = true
+					return false
+				}
+				return true
+			case <-time.After(100 * time.Millisecond):
+				if !StateLockFree(ss.C, 150*time.Millisecond) {
+					wedged = true
+					return false
+				}
+				if time.Since(start) > 15*time.Second {
+					stalled = true
+					return false
+				}
+			}
+		}
+	}
+	// barrier: PING tok, then wait for its PONG or for Connect to return.
+	barrier := func() bool {
+		seq++
+		tok := SentinelPrefix + strconv.Itoa(seq)
+		if !send("PING " + tok) {
+			return false
+		}
+		want := "PONG " + tok + "\r\n"
+		sent := time.Now()
+		deadline := sent.Add(10 * time.Second)
+		for {
+			if pollDone(); gone {
+				return false
+			}
+			for _, l := range ss.Since(mark) {
+				if l == want {
+					return true
+				}
+			}
+			if time.Now().After(deadline) {
+				return false
+			}
+			// no answer for half a second and the state lock is held all the time: a handler
+			// returned (or died) with the lock held and every later handler blocks on it
+			if time.Since(sent) > 200*time.Millisecond && !StateLockFree(ss.C, 150*time.Millisecond) {
+				wedged = true
+				return false
+			}
+			time.Sleep(100 * time.Microsecond)
+		}
+	}
+	for i, e := range evs {
+		line, ok := e.Line()
+		if !ok {
+			return "?unrenderable", ""
+		}
+		welcome := e.Cmd == "001" && len(e.Params) > 0
+		var before int64
+		if welcome {
+			// the welcome handler runs in the background; it ends with an UPDATE_GENERAL
+			// notification. Everything sent before is handled first, so that the next
+			// notification can only be its own.
+			if !barrier() {
+				break
+			}
+			before = atomic.LoadInt64(&general)
+		}
+		if !send(line) {
+			break
+		}
+		if welcome {
+			if !barrier() {
+				break
+			}
+			deadline := time.Now().Add(3 * time.Second)
+			for atomic.LoadInt64(&general) == before && time.Now().Before(deadline) {
+				time.Sleep(50 * time.Microsecond)
+			}
+		}
+		if ss.PanicCount() > 0 {
+			return "PANIC", fmt.Sprintf("panic: handler panicked around event %d (%s %q)", i, e.Cmd, e.Params)
+		}
+		if mayDisconnect(e, opt) {
+			// Stop feeding once the client has decided to go: readLoop hands lines to a queue
+			// of 25 that nobody drains after execLoop has returned, and waits 30 s on each
+			// further line before it notices the cancellation; Connect returns that much later.
+			if !(barrier() && barrier()) {
+				break
+			}
+		}
+	}
+	// two barriers: an ERROR queued by a handler is behind at most the first one
+	alive := !gone && !wedged && !stalled && barrier() && barrier()
+	if ss.PanicCount() > 0 {
+		return "PANIC", "panic: a handler panicked during the history"
+	}
+	if wedged {
+		healthy = false
+		return "WEDGED", "wedge: the state lock stays held and the client no longer reads or answers"
+	}
+	if stalled {
+		healthy = false
+		return "NOPONG", "liveness: the client stopped reading its socket for 15 s"
+	}
+	if alive {
+		if !StateLockFree(ss.C, 150*time.Millisecond) {
+			healthy = false
+			return "WEDGED", "wedge: state lock still held after the history"
+		}
+		obs = DumpState(ss.C) + ";w=" + WrittenNoSentinels(ss.Since(mark))
+		if m := StructuralInvariant(ss.C); m != "" {
+			oracle = "structure: " + m
+		} else if m := PermsCovered(ss.C); m != "" {
+			oracle = "perms: " + m
+		}
+		return obs, oracle
+	}
+	// no PONG: Connect must return, with an error
+	deadline := time.Now().Add(5 * time.Second)
+	for !ended && time.Now().Before(deadline) {
+		pollDone()
+		time.Sleep(200 * time.Microsecond)
+	}
+	if !ended {
+		healthy = false
+		return "NOPONG", "liveness: after the history the client neither answered a PING nor returned from Connect"
+	}
+	if derr == nil {
+		return "disconnected-nil", "liveness: Connect returned without an error although nobody closed the client"
+	}
+	return "disconnected", ""
+}
+
+// Isolated runs one case of a suite in a child process (the same binary, `eval`), so that
+// a crash of the library (a panic in a bare goroutine kills the process) is an oracle
+// verdict with the case as replay instead of the death of the whole run.
+func Isolated(suite string, c Case, direct func(Case) Result) Result {
+	if os.Getenv("VERIF_ISOLATED_CHILD") == "1" {
+		return direct(c)
+	}
+	exe, err := os.Executable()
+	if err != nil {
+		return direct(c)
+	}
+	cmd := exec.Command(exe, "eval")
+	cmd.Env = append(os.Environ(), "VERIF_ISOLATED_CHILD=1")
+	cmd.Stdin = strings.NewReader(suite + "\t" + EncodeCase(c) + "\n")
+	var stdout, stderr bytes.Buffer
+	cmd.Stdout, cmd.Stderr = &stdout, &stderr
+	runErr := cmd.Run()
+	for _, ln := range strings.Split(stdout.String(), "\n") {
+		i := strings.Index(ln, "\t=>\t")
+		if i < 0 {
+			continue
+		}
+		f := strings.Split(ln[i+4:], "\t")
+		for len(f) < 3 {
+			f = append(f, "")
+		}
+		return Result{Obs: Unesc(f[0]), Oracle: Unesc(f[1]), Sig: f[2]}
+	}
+	msg := strings.TrimSpace(stderr.String())
+	if j := strings.Index(msg, "\n"); j >= 0 {
+		first := msg[:j]
+		if k := strings.Index(msg, "goroutine "); k >= 0 {
+			rest := msg[k:]
+			if l := strings.Index(rest, "\n"); l >= 0 {
+				rest = rest[l+1:]
+			}
+			fr := strings.SplitN(rest, "\n", 2)[0]
+			first += " @ " + strings.TrimSpace(fr)
+		}
+		msg = first
+	}
+	return Result{Obs: "DIED", Oracle: fmt.Sprintf("process-death: the process running the client died (%v): %s", runErr, msg), Sig: "died"}
+}
+
+// Unesc undoes Esc.
+func Unesc(s string) string {
+	if !strings.Contains(s, "\\x") {
+		return s
+	}
+	var sb strings.Builder
+	for i := 0; i < len(s); i++ {
+		if s[i] == '\\' && i+3 < len(s) && s[i+1] == 'x' {
+			if v, err := strconv.ParseUint(s[i+2:i+4], 16, 8); err == nil {
+				sb.WriteByte(byte(v))
+				i += 3
+				continue
+			}
+		}
+		sb.WriteByte(s[i])
+	}
+	return sb.String()
 }
